@@ -1,11 +1,12 @@
 (* C01, part c01json - the JSON/map form of serix round-trips: MapEncode/JSONEncode then MapDecode/JSONDecode
    gives back every value that form can express.  Statements only.  [jencode]/[jdecode true] model
-   map_encode.go / map_decode.go as they are now (after commits 4262ca0, 81cafca, 8fc6fcd, 9d20a03, bb76e84). *)
+   map_encode.go / map_decode.go as they are now (after commits 4262ca0, 81cafca, 8fc6fcd, 9d20a03, bb76e84, 18e6a53, b4a46ea, 74faee1). *)
 From Coq Require Import ZArith NArith List Bool String.
 From Verif.C01_SerixJson Require Import Model Ind ProofsLeaf ProofsC01 ProofsC02.
 Import ListNotations.
 
-(* For EVERY schema of the modelled fragment (bool; int8..uint64; string; []byte; [n]byte; *big.Int; time.Time;
+(* For EVERY schema of the modelled fragment (bool; int8..uint64; string; []byte; [n]byte, also with a registered
+   object code (object form) and behind a pointer; *big.Int; time.Time;
    structs by value or pointer with required / optional / omitempty / inlined fields, embedded structs and object
    codes; slices; arrays; maps;
    interfaces with registered alternatives - nested arbitrarily) and EVERY value of that type.
@@ -62,7 +63,9 @@ Definition ex_schema : schema :=
      ("m", FReq, SMap SI64 (SSlice SString));
      ("if", FOptional, SIface [(7%N, ex_alt)]);
      ("om", FOmit, SNum U8); ("os", FOmit, SSlice SString); ("ot", FOmit, STime); ("op", FOmit, SU256);
-     ("", FInline, SStruct false None [("ea", FReq, SNum I8); ("", FInline, SStruct true None [("eb", FReq, SBool)])])]%string.
+     ("", FInline, SStruct false None [("ea", FReq, SNum I8); ("", FInline, SStruct true None [("eb", FReq, SBool)])]);
+     ("ad", FReq, SByteArrO false 2 (Some 5%N) "pubKeyHash"); ("pa", FOptional, SByteArrO true 2 (Some 5%N) "pubKeyHash");
+     ("pb", FReq, SByteArrO true 1 None "data")]%string.
 Definition ex_value : value :=
   VList [VInt (-128); VInt (-9223372036854775808); VInt 18446744073709551615; VStr "hi"; VBool true;
          VStr "ab"; VStr "xy"; VInt 255; VInt 5; VNil;
@@ -71,7 +74,8 @@ Definition ex_value : value :=
          VMap [(VInt (-1), VList [VStr "a"]); (VInt 1, VList [])];
          VIface 7 (VList [VInt 65535]);
          VInt 0; VList [VStr "z"]; VInt zero_time; VNil;
-         VList [VInt 4; VPtr (VList [VBool true])]]%string.
+         VList [VInt 4; VPtr (VList [VBool true])];
+         VStr "ab"; VPtr (VStr "cd"); VPtr (VStr "e")]%string.
 
 Example C01_json_roundtrip_nonvacuous :
   wf_schema ex_schema = true /\ has_type ex_schema ex_value = true /\
@@ -83,7 +87,9 @@ Example C01_json_roundtrip_nonvacuous :
               ("aI", JArr [JNum 5; JNum (-6)]);
               ("m", JObj [("-1", JArr [JStr "a"]); ("1", JArr [])]);
               ("if", JObj [("type", JNum 7); ("q", JNum 65535)]);
-              ("os", JArr [JStr "z"]); ("ea", JNum 4); ("eb", JBool true)]%string).
+              ("os", JArr [JStr "z"]); ("ea", JNum 4); ("eb", JBool true);
+              ("ad", JObj [("type", JNum 5); ("pubKeyHash", JStr "0x6162")]);
+              ("pa", JObj [("type", JNum 5); ("pubKeyHash", JStr "0x6364")]); ("pb", JStr "0x65")]%string).
 Proof. vm_compute. repeat split. Qed.
 
 (* The pinned code did not round-trip arrays of non-byte elements (JSON analogue of D01a, repaired by 81cafca),
@@ -98,6 +104,23 @@ Proof.
   exists (JObj [("aI", JArr [JNum 5; JNum 6])]%string). split; vm_compute; reflexivity.
 Qed.
 
+(* The pinned code ([jdecode false]) did not round-trip byte arrays behind a pointer without type settings (repaired
+   by b4a46ea), nor by-value byte arrays with an object code (repaired by 74faee1; the unchecked assertion of the
+   pinned code had become an error with 4262ca0). *)
+Theorem C01_refuted_json_bytearray_forms_pinned :
+  let s1 := SStruct false None [("a", FReq, SByteArrO true 4 None "data")]%string in
+  let v1 := VList [VPtr (VStr "abcd")]%string in
+  let s2 := SStruct false None [("a", FReq, SByteArrO false 4 (Some 3%N) "a")]%string in
+  let v2 := VList [VStr "abcd"]%string in
+  wf_schema s1 = true /\ has_type s1 v1 = true /\ wf_schema s2 = true /\ has_type s2 v2 = true /\
+  (exists j, jencode s1 v1 = Ok j /\ jdecode false s1 j = Err EUnsupported /\ jdecode true s1 j = Ok v1) /\
+  (exists j, jencode s2 v2 = Ok j /\ jdecode false s2 j = Panic /\ jdecode true s2 j = Ok v2).
+Proof.
+  cbv zeta. repeat (split; [vm_compute; reflexivity|]). split.
+  - exists (JObj [("a", JStr "0x61626364")]%string). repeat split; vm_compute; reflexivity.
+  - exists (JObj [("a", JObj [("type", JNum 3); ("a", JStr "0x61626364")])]%string). repeat split; vm_compute; reflexivity.
+Qed.
+
 Print Assumptions C01_json_roundtrip.
 Print Assumptions C01_json_roundtrip_top.
 Print Assumptions C01_json_encode_well_formed.
@@ -106,3 +129,4 @@ Print Assumptions C01_refuted_json_array_pinned.
 Print Assumptions C01_json_encode_no_panic.
 Print Assumptions C01_json_encode_top_no_panic.
 Print Assumptions C01_json_encode_former_panics.
+Print Assumptions C01_refuted_json_bytearray_forms_pinned.
